@@ -38,4 +38,20 @@ PROPS = {
                  6: "RowUpdate2.Old", 7: "RowUpdate2.New", 8: "GetModel", 9: "GetRow"},
         "assumptions": ["rows are well typed for the table; integer arithmetic does not overflow int64; reals are exact dyadic values"],
     },
+    "C05": {
+        "level_text": ("Theorems (Props/C05.v, axiom-free) over a model of cache.RowCache (Create/Update/Delete/IndexExists, valueFromIndex, rowsByModels): "
+                       "the invariant 'every index map is exactly the grouping of the cached rows by index key, without empty entries' is preserved by every "
+                       "operation that does not create a transient schema-index duplicate, hence by every batch in every order for client indexes and for "
+                       "hand-over-free batches; under the invariant every index lookup equals a scan, an entry exists iff some row has the value, and the "
+                       "duplicate check is exact. The hand-over case on schema indexes (taker applied before giver) is decided by the correspondence check "
+                       "(model with the repaired overwrite/remove-if-own semantics evaluated on the orders the harness forces) - theorem named _partial."),
+        "level_note": ("Trusted: Coq kernel + vm_compute, std++; Go harness (own cacheUpdate type forcing the application order); gob+sha256 multi-column key modelled as "
+                       "the tuple of non-nil values. Whole sets/maps as index values (unhashable in Go) are outside the model."),
+        "rule": ("sequences of 2..8 (thorough 2..14) steps on a real TableCache under 9 index configurations (none, single/multi-column schema, client plain/optional/"
+                 "map-key, overlapping, schema on optional): batches of 1..6 row changes through ApplyCacheUpdate in a PRNG-chosen order (35% with a value hand-over: "
+                 "swap of two rows or delete+take-over) and direct Create/Update/Delete with and without index check incl. failing calls; after every step rows, every "
+                 "Index() partition and 3 RowByModel/RowsByModels probes are compared. Non-trivial: the case has a batch of >= 2 rows and a hand-over."),
+        "tags": {}, 
+        "assumptions": ["index columns are atoms, optionals or map keys", "batches touch each row at most once (as ModelUpdates guarantees)"],
+    },
 }
